@@ -13,7 +13,7 @@
 From Coq Require Import NArith List Bool Arith Lia.
 From IRV Require Import Base.Exn C10.Model C10.Proofs1 C10.Proofs2 C10.Proofs3 C10.Proofs4 C10.Proofs5 C10.Proofs6 C10.StrPrefix.
 From IRV Require Import C10.CallModel Gen.C10Gen.
-From IRV Require C10.CallProofs C10.Traverse.
+From IRV Require C10.CallProofs C10.Traverse C10.Canon C10.CheckDsl C10.CheckEquiv.
 Import ListNotations.
 
 (* Key lemma 1: whenever the kernel resolves a path (all symlinks followed, from any cwd, through any
@@ -275,3 +275,45 @@ Proof.
   eapply Traverse.occ_in_node; [left; reflexivity|]. eapply Traverse.occ_attr_g; [left; reflexivity|].
   eapply Traverse.occ_in_node; [left; reflexivity|]. eapply Traverse.occ_attr_ts; [left; reflexivity|left; reflexivity].
 Qed.
+
+(* ================================================================== the check itself, translated from the source
+   Gen/C10Gen.v contains, regenerated on every run by a fail-closed ast translation (harness/props/c10.py extract_check):
+     gen_check      ExternalTensor._check_path_containment, statement by statement, over the string-level operations
+                    of C10/CheckDsl.v (os.fspath / normcase / normpath / abspath / realpath / os.sep / endswith /
+                    startswith / os.stat(..).st_nlink with its except OSError);
+     gen_path       the `path` property;   gen_load_base   load()'s `base_dir = os.path.dirname(path) or "."`;
+   and the generation FAILS (broken obligation) unless the base_dir getter/setter, location and __init__ are plain
+   field accesses, load() is the straight line  proto / model / base_dir / set_base_dir(model.graph) / for every function
+   set_base_dir / return model  (no early return), and set_base_dir assigns base_dir unconditionally to every
+   ExternalTensor of _all_tensors.  The hand model that all containment theorems are about EQUALS the translation: *)
+Theorem C10_check_model_equals_source :
+  forall kf fs cwd pf base loc, Forall noslash cwd ->
+  gen_check kf fs cwd pf base loc = check kf fs cwd pf base loc.
+Proof. exact CheckEquiv.gen_check_eq. Qed.
+Print Assumptions C10_check_model_equals_source.
+
+Theorem C10_path_and_load_base_equal_source :
+  (forall base loc, parse (gen_path base loc) = py_join (parse base) (parse loc)) /\
+  (forall p, gen_load_base p = load_base p) /\
+  gen_fields_are_plain = true /\ gen_set_base_dir_is_plain = true.
+Proof. exact (conj CheckEquiv.gen_path_eq (conj CheckEquiv.gen_load_base_eq (conj eq_refl eq_refl))). Qed.
+Print Assumptions C10_path_and_load_base_equal_source.
+
+(* hence containment holds for the check AS WRITTEN IN THE SOURCE: *)
+Theorem C10_contained_source_check :
+  forall kf fs cwd pf base loc rb nb rp ino data a e,
+  get fs cwd = Some (Dir a e) -> Forall entry_name cwd ->
+  base <> [] ->
+  gen_check kf fs cwd pf base loc = Some (Ok tt) ->
+  kstr kf fs cwd (parse base) true = Some (rb, nb) ->
+  kstr kf fs cwd (parse (gen_path base loc)) true = Some (rp, File ino 1 data) \/
+  kopen kf fs cwd base loc = Ok (rp, ino, data) ->
+  (exists suf, rp = rb ++ suf) /\ exists nl, get fs rp = Some (File ino nl data) /\ (nl <= 1)%N.
+Proof. exact CheckEquiv.contained_gen. Qed.
+Print Assumptions C10_contained_source_check.
+
+Example C10_source_check_example :
+  gen_check 45 ex_fs [] 100 ex_base [119]%N = Some (Ok tt) /\
+  gen_check 45 ex_fs [] 100 ex_base [108]%N = Some (Raise ValueError) /\
+  gen_load_base [109; 46; 111]%N = s_dot /\ Forall noslash ([] : rpath).
+Proof. vm_compute. repeat split. constructor. Qed.
